@@ -276,6 +276,19 @@ class Interp:
             # instances of one class merge on the attributes both descriptions carry (a contract
             # shape lists only the attributes it talks about)
             return SObj(a.cls, {k: self.ite(c, a.attrs[k], b.attrs[k]) for k in a.attrs if k in b.attrs})
+        if isinstance(a, SObj) and isinstance(b, SObj):
+            # instances of different classes (entries of one cache: CIE / FDE): the merged description carries the common
+            # attributes whose values can be merged; reading any other attribute of it is a contract-incomplete error
+            out = {}
+            for k in a.attrs:
+                if k in b.attrs:
+                    try:
+                        out[k] = self.ite(c, a.attrs[k], b.attrs[k])
+                    except Unsupported:
+                        pass
+            o = SObj('%s|%s' % (a.cls, b.cls), out)
+            o.from_shape = True
+            return o
         if isinstance(a, (SDict, dict)) and isinstance(b, (SDict, dict)) and (isinstance(a, SDict) or isinstance(b, SDict)):
             def has(d, k):
                 return d.has(k) if isinstance(d, SDict) else (k in d if not is_sym(k) else zor(*[self.equal(k, q) for q in d]))
